@@ -843,6 +843,89 @@ def gen_parsers(mods):
     return "\n".join(lines), dict(whole=whole, lists=lists, inquiry=inq, disc=disc, unknown=unknown)
 
 
+def gen_builders(mods):
+    """what the builders of parameter data store into length fields:  X[a:b] = scsi_int_to_ba(len(X) - c, n)  /  X[i] = len(X) - c
+    and the padding helper _pad4_len as an arithmetic expression"""
+    from translate import HEADER, coq_str, const_int
+    stores, unknown = [], []
+    pad = None
+
+    def iexp(e, env):
+        """integer expression over the variable n = len(s)"""
+        if isinstance(e, ast.Constant) and isinstance(e.value, int):
+            return str(e.value)
+        if isinstance(e, ast.Name) and e.id in env:
+            return env[e.id]
+        if isinstance(e, ast.Call) and dotted(e.func) == "len":
+            return "n"
+        if isinstance(e, ast.BinOp):
+            a, b = iexp(e.left, env), iexp(e.right, env)
+            if a is None or b is None:
+                return None
+            op = {ast.Add: "+", ast.Sub: "-", ast.Mod: "mod", ast.Mult: "*"}.get(type(e.op))
+            return "(%s %s %s)" % (a, op, b) if op else None
+        return None
+
+    for mod in mods:
+        if not mod.stem.startswith("scsi_cdb_"):
+            continue
+        for node in mod.tree.body:
+            if isinstance(node, ast.FunctionDef) and node.name == "_pad4_len":
+                env, expr = {}, None
+                body = [b for b in node.body if not (isinstance(b, ast.Expr) and isinstance(b.value, ast.Constant))]
+                ok = True
+                conds = []
+                for st in body:
+                    if isinstance(st, ast.Assign) and isinstance(st.targets[0], ast.Name):
+                        env[st.targets[0].id] = iexp(st.value, env)
+                    elif isinstance(st, ast.If) and isinstance(st.test, ast.Name) and len(st.body) == 1 and isinstance(st.body[0], ast.Return) and not st.orelse:
+                        conds.append((env.get(st.test.id), iexp(st.body[0].value, env)))
+                    elif isinstance(st, ast.Return):
+                        expr = iexp(st.value, env)
+                    else:
+                        ok = False
+                if ok and expr and all(c and v for c, v in conds):
+                    for c, v in reversed(conds):
+                        expr = "(if %s =? 0 then %s else %s)" % (c, expr, v)
+                    pad = expr
+                else:
+                    unknown.append("%s._pad4_len" % mod.stem)
+        for cls in [n for n in mod.tree.body if isinstance(n, ast.ClassDef)]:
+            for fn in [f for f in cls.body if isinstance(f, ast.FunctionDef) and f.name.startswith("marshall")]:
+                where = "%s.%s.%s" % (mod.stem, cls.name, fn.name)
+                for st in ast.walk(fn):
+                    if not (isinstance(st, ast.Assign) and len(st.targets) == 1 and isinstance(st.targets[0], ast.Subscript)
+                            and isinstance(st.targets[0].value, ast.Name)):
+                        continue
+                    buf = st.targets[0].value.id
+                    v = st.value
+                    if isinstance(v, ast.Call) and dotted(v.func) in ("scsi_int_to_ba", "convert.scsi_int_to_ba") and len(v.args) == 2:
+                        v, width = v.args[0], const_int(v.args[1])
+                    else:
+                        width = 1
+                    if not (isinstance(v, ast.BinOp) and isinstance(v.op, ast.Sub) and isinstance(v.left, ast.Call) and dotted(v.left.func) == "len"
+                            and isinstance(v.left.args[0], ast.Name) and v.left.args[0].id == buf and const_int(v.right) is not None):
+                        continue
+                    sl = st.targets[0].slice
+                    if isinstance(sl, ast.Slice):
+                        a = 0 if sl.lower is None else const_int(sl.lower)
+                        b = const_int(sl.upper) if sl.upper is not None else None
+                    else:
+                        a = const_int(sl)
+                        b = a + 1 if a is not None else None
+                    if a is None or b is None or width != b - a:
+                        unknown.append("%s: %s" % (where, ast.unparse(st)[:60]))
+                        continue
+                    stores.append((where, a, b, const_int(v.right)))
+    lines = [HEADER.format(src="the marshall* functions of scsi_cdb_*.py (length-field stores) and _pad4_len", extra="")]
+    lines.append("(* builder, first byte of the field, one past its last byte, c:  the field is set to len(buffer) - c *)")
+    lines.append("Definition length_stores : list (string * (nat * nat * nat)) := [\n  %s].\n" % ";\n  ".join(
+        "(%s, (%d%%nat, %d%%nat, %d%%nat))" % (coq_str(w), a, b, c) for w, a, b, c in sorted(set(stores))))
+    lines.append("Definition pad4_len (n : N) : N := %s.\n" % (pad or "0"))
+    lines.append("Definition unknown_builders : list string := [%s].\n" % "; ".join(coq_str(u) for u in unknown + ([] if pad else ["_pad4_len"])))
+    return "\n".join(lines), dict(stores=sorted(set(stores)), pad=pad, unknown=unknown)
+
+
 def gen_footprint(mods):
     """whole-scan of the command modules for run-time writes to state shared between command objects:
     attributes of class objects, module globals, and the caller's own dict/list arguments"""
